@@ -49,8 +49,11 @@ PROFILES = {
     # policies, need_limit, need_ttl, need_mem, allow_mem
     "C01": dict(),
     "C04": dict(need_limit=True),
+    # extreme frequency weights (any float > 0 is a valid attribute value): scores overflow to
+    # infinity; the limit must hold all the same
+    "C04X": dict(need_limit=True, policies=["tlru"], streaks=True, extreme_weights=True),
     "C05": dict(need_mem=True),
-    "C06": dict(need_ttl=True),
+    "C06": dict(need_ttl=True, lifetime=True),
     "C07": dict(policies=["fifo", "lru"], need_pressure=True, streaks=True, scenarios=True),
     "C08": dict(policies=["lfu", "arc", "tlru"], need_pressure=True, extra_ttl=[6, 10, 6], streaks=True, scenarios=True),
     "C15": dict(),
@@ -78,6 +81,8 @@ def gen_cfg(r, prof):
         else:
             mem = r.pick(MEMS)
     fw = r.pick(WEIGHTS) if pol == "tlru" else None
+    if prof.get("extreme_weights"):
+        fw = r.pick([(2000, 1), (1024, 1), (64, 1)]) if fl == "a" else r.pick([(10 ** 308, 1), (10 ** 307, 1), (10 ** 300, 1)])
     return dict(fl=fl, pol=pol, limit=limit, ttl=ttl, mem=mem, fw=fw)
 
 
@@ -107,6 +112,44 @@ def gen_scenario(r, cfg):
                 k2 = r.pick(live[-(cap + 1):])
                 for _ in range(1 + r.below(3)):
                     ops.append((r.pick([0, 0, 1000]), "get", [k2]))
+    return ops
+
+
+def gen_lifetime(r, cfg):
+    """lifetime probes for the TTL property: every key is stored, looked up at chosen ages below T
+    (a hit must not prolong the entry's life), possibly stored again (the new entry's life starts
+    at the second store) and finally looked up just before and exactly at the end of its life"""
+    T = cfg["ttl"] * 1000
+    is_async = cfg["fl"] == "a"
+    step = 1000 if is_async else 250
+    events = []          # (absolute time, order, name, args)
+    v = 0
+    nkeys = 1 + r.below(3)
+    for k in range(nkeys):
+        t0 = r.below(4) * step
+        v += 1
+        sz = r.pick(SIZES[:3])
+        ins = "insm" if cfg["mem"] is not None else "ins"
+        events.append((t0, len(events), ins, [k, v, sz]))
+        ages = sorted(set(r.below(max(1, T // step)) * step for _ in range(r.below(4))))
+        for d in ages:
+            events.append((t0 + d, len(events), "get", [k]))
+        if r.chance(1, 3) and T > step:
+            d2 = (1 + r.below(T // step - 1)) * step
+            v += 1
+            events.append((t0 + d2, len(events), ins, [k, v, sz]))
+            t0 = t0 + d2
+            for d in sorted(set(r.below(max(1, T // step)) * step for _ in range(r.below(3)))):
+                events.append((t0 + d, len(events), "get", [k]))
+        events.append((t0 + T - step, len(events), "get", [k]))
+        events.append((t0 + T, len(events), "get", [k]))
+        if r.chance(1, 2):
+            events.append((t0 + T + step, len(events), "get", [k]))
+    events.sort()
+    ops, now = [], 0
+    for t, _, name, args in events:
+        ops.append((t - now, name, args))
+        now = t
     return ops
 
 
@@ -174,6 +217,8 @@ def main():
             nops = a.nops // 2 + r.below(a.nops)
             if prof.get("scenarios") and r.chance(1, 2):
                 ops = gen_scenario(r, cfg)
+            elif prof.get("lifetime") and r.chance(1, 3):
+                ops = gen_lifetime(r, cfg)
             else:
                 ops = gen_history(r, cfg, nops, mixed=a.prop in ("C16",), streaks=prof.get("streaks", False))
             seed = r.below(1 << 31)
